@@ -58,8 +58,15 @@ UP_SITES = ["network", "segments", "noise", "coder", "parallel", "YowAckProtocol
 DESYNC_DOWN = ("segments", "network")
 DESYNC_UP = ("network", "segments", "noise")
 
-NATURAL_DOWN = ["attr-not-string", "oversize", "session-not-ready"]
+NATURAL_DOWN = ["attr-not-string", "data-not-bytes", "oversize", "oversize-boundary", "session-not-ready"]
 NATURAL_UP = ["garbage-frame", "undecodable-plaintext", "picture-notification", "stream-error-unknown", "app-callback"]
+
+
+def _sized_receipt(w, encoded_len):
+    """A receipt stanza whose encoding by the real coder is exactly encoded_len bytes."""
+    probe = ProtocolTreeNode("receipt", {"id": "big", "to": "4911@s.whatsapp.net"}, None, b"\x07" * (1 << 20))
+    overhead = len(w.writer.protocolTreeNodeToBytes(probe)) - (1 << 20)
+    return ProtocolTreeNode("receipt", {"id": "big", "to": "4911@s.whatsapp.net"}, None, b"\x07" * (encoded_len - overhead))
 
 
 def _arm(layer, meth, state):
@@ -111,11 +118,21 @@ def run_case(case, prefix):
 
     def do_send(k, faulty, who):
         node = H.out_stanza(k, who)
+        if case.get("largest_ok_first") and k == 0:
+            node = _sized_receipt(w, (1 << 24) - 17)      # largest stanza that fits: must be transmitted
         if faulty:
             if fault == "attr-not-string":
                 node = ProtocolTreeNode("presence", {"type": "available", "name": 12345})
+            elif fault == "data-not-bytes":
+                # text put into a node through setData() as str (the constructor insists on bytes, setData does not):
+                # cannot be encoded, and cannot even be rendered by ProtocolTreeNode.__str__
+                node = ProtocolTreeNode("presence", {"type": "available"}, [ProtocolTreeNode("status")])
+                node.children[0].setData(u"busy \u263a")
             elif fault == "oversize":
                 node = ProtocolTreeNode("receipt", {"id": "big", "to": "4911@s.whatsapp.net"}, None, b"\x07" * (1 << 24))
+            elif fault == "oversize-boundary":
+                # smallest stanza that must be refused: its encoding plus the 16 byte tag is exactly 2^24 bytes
+                node = _sized_receipt(w, (1 << 24) - 16)
             elif site:
                 inj["armed"] = sc.me().name
         try:
@@ -347,7 +364,7 @@ def _safe_key(e):
 def cases_for(tier):
     quick = tier == "quick"
     cases = []
-    downs = ["attr-not-string"] + ["inject:" + s for s in DOWN_SITES]
+    downs = ["attr-not-string", "data-not-bytes"] + ["inject:" + s for s in DOWN_SITES]
     ups = NATURAL_UP + ["inject:" + s for s in UP_SITES]
     for f in downs:
         for pos in (0, 1, 2):
@@ -363,6 +380,7 @@ def cases_for(tier):
     cases.append({"fault": "session-not-ready", "dir": "down", "pos": 0, "follow": "same"})
     cases.append({"fault": "session-not-ready", "dir": "down", "pos": 0, "follow": "other"})
     cases.append({"fault": "oversize", "dir": "down", "pos": 1, "follow": "same"})
+    cases.append({"fault": "oversize-boundary", "dir": "down", "pos": 1, "follow": "same", "largest_ok_first": True})
     if not quick:
         cases.append({"fault": "oversize", "dir": "down", "pos": 0, "follow": "other"})
         cases.append({"fault": "oversize", "dir": "down", "pos": 1, "follow": "same", "reconnect": True})
@@ -381,8 +399,8 @@ def run(ctx):
     free_bound = 1 if ctx.quick else 2
     cap = 60000 if ctx.quick else 2000000
     # oversize cases are expensive (16 MiB through the pure-python encoder): default schedule + bound 0 only
-    big = [c for c in cases if c["fault"] == "oversize"]
-    small = [c for c in cases if c["fault"] != "oversize"]
+    big = [c for c in cases if c["fault"].startswith("oversize")]
+    small = [c for c in cases if not c["fault"].startswith("oversize")]
     st = dfs.explore(ctx, MOD, "run_case", small, bound, cap=cap, chunksize=4, free_bound=free_bound)
     stb = dfs.explore(ctx, MOD, "run_case", big, 0, cap=200, chunksize=1, free_bound=0)
     ctx.note("preemption bound %d, free bound %d: executions=%d (+%d oversize) capped=%s" % (bound, free_bound, st.executions, stb.executions, st.capped))
